@@ -501,7 +501,7 @@ def op_verify(ctx, op):
     if v.failures != 0:
         bad = [(f, k) for f, m in verdict_map(v) for k, s in m if s is False]
         kinds = sorted({'%s:%s' % (col_kind(spec, f), k) for f, k in bad})
-        violation(ctx, op, 'closure', '%s/%s' % ('+'.join(kinds), tag),
+        violation(ctx, op, 'closure', '%s/%s' % (kinds[0], tag),
                   'constraints discovered from this frame fail on it: %r\n'
                   'constraints: %s\nframe:\n%s'
                   % (bad, scrub_meta(json.dumps(cs_dict(rec), default=str,
@@ -625,7 +625,7 @@ def op_detect(ctx, op):
             kinds = sorted({'%s:%s' % (col_kind(spec, f), k)
                             for f, k in bad})
             violation(ctx, op, 'closure-detect',
-                      '%s/%s' % ('+'.join(kinds) or 'records', tag),
+                      '%s/%s' % ((kinds or ['records'])[0], tag),
                       'detection on the discovery frame reports %d failing '
                       'constraints / %d failing records: %r\n%s'
                       % (v.failures, nf, bad, df.to_string()[:1200]))
